@@ -92,3 +92,10 @@ claimed["C15"] = (
     "only must-reject classes named by the statement are judged; list sizes are read as size ranges; recursive pairs are probed on two fixed cases per run because each costs a worker restart",
     "DESIGN.md §3 C15",
 )
+claimed["C12"] = (
+    "exploration",
+    "runtime metamorphic monitor: N-fold repetition, deep argument snapshots, call histories on a used instance compared with a fresh instance and with its own earlier self-description, in-place scrambling of returned values",
+    "For each generated shape two instances are built. A probe set (Unserialize / Validate / Serialize / data- and schema-mode ValidateCompatibility, valid, perturbed, hostile, default-filling and rejected arguments) is evaluated on the fresh one; the used one goes through a random history of 1..30 calls with every argument deep-snapshotted before and after and every container of every result overwritten in place; then every probe is evaluated 16 times on it. Violations: an argument changed by a call or by scrambling the result, two evaluations that differ, an outcome that differs from the fresh instance, a self-description that differs from the one taken before the history or from a never-used instance.",
+    "GetDefaults() is not compared; inputs with keys that collide after normalisation are excluded from determinism; distinct recursive instances are not compared with each other (C15 known finding)",
+    "DESIGN.md §3 C12",
+)
